@@ -82,7 +82,7 @@ func c20LongBuild(d c20Long) (id string, words int, maxWord int, ok bool) {
 	return b.String(), words, maxWord, true
 }
 
-var c20LongSizes = []int{65536, 65537, 65535, 4096, 4097, 4095, 32768, 32769, 32767, 256, 257, 255, 131072, 1 << 20}
+var c20LongSizes = []int{65536, 65537, 65535, 4096, 4097, 4095, 32768, 32769, 32767, 256, 257, 255, 128, 129, 127, 131072, 1 << 20}
 
 // c20LongGen draws a description. fillers must not contain '_' or upper case
 // when the words are to stay whole.
@@ -174,6 +174,97 @@ func TestVerif_C20_naming_render_long(t *testing.T) {
 			v := c20Judge(c20U(c.T), id, nil)
 			// the per-identifier classes of c20Judge stay; add the size classes
 			v.Classes = append(v.Classes, c20LongClasses(words, maxWord, len(id))...)
+			v.Fail = c20Trunc(v.Fail)
+			return v
+		})
+}
+
+// ---------------------------------------------------------------- long templates
+
+// c20LongTpl describes prefix + go + through + designer + suffix with parts of
+// up to 1 MiB. Fillers contain none of the letters of the two words.
+type c20LongTpl struct {
+	P  int    `json:"p"`  // byte length of the prefix
+	H  int    `json:"h"`  // ... of the through text
+	S  int    `json:"s"`  // ... of the suffix
+	F  string `json:"f"`  // filler (strconv.Quote'd, no outer quotes)
+	Go string `json:"go"` // the go word as written
+	De string `json:"de"` // the designer word as written
+}
+
+type c20LongTplCase struct {
+	T c20LongTpl `json:"t"`
+	I string     `json:"i"`
+}
+
+func c20Fill(f string, l int) string {
+	fill := []rune(f)
+	if len(fill) == 0 {
+		fill = []rune{'x'}
+	}
+	var b strings.Builder
+	b.Grow(l)
+	for k := 0; b.Len() < l; k++ {
+		r := fill[k%len(fill)]
+		if b.Len()+utf8.RuneLen(r) > l {
+			r = 'x'
+		}
+		b.WriteRune(r)
+	}
+	return b.String()
+}
+
+func TestVerif_C20_naming_template_long(t *testing.T) {
+	fillers := []string{"-", "x", "ab", "é", "%", ".#", "前", "a_", "%s", " "}
+	idents := []string{"user_info", "welcome_to_go_designer", "HTTPServer", "a", "", "用户_info", "x1_y2_z3"}
+	small := rapid.IntRange(0, 5)
+	kit.Run(t, "C20", "naming-template-long", kit.Opts{Quick: 32, Thorough: 800},
+		func(rt *rapid.T) c20LongTplCase {
+			d := c20LongTpl{F: c20Q(rapid.SampledFrom(fillers).Draw(rt, "f")),
+				Go: rapid.SampledFrom([]string{"go", "GO", "Go", "gO"}).Draw(rt, "go"),
+				De: rapid.SampledFrom([]string{"designer", "DESIGNER", "Designer", "designeR"}).Draw(rt, "de"),
+				P:  small.Draw(rt, "p"), H: small.Draw(rt, "h"), S: small.Draw(rt, "s")}
+			size := rapid.SampledFrom(c20LongSizes).Draw(rt, "size") + rapid.SampledFrom([]int{0, 0, 0, -2, -1, 1, 2}).Draw(rt, "delta")
+			switch rapid.IntRange(0, 3).Draw(rt, "where") {
+			case 0:
+				d.P = size
+			case 1:
+				d.H = size
+			case 2:
+				d.S = size
+			default: // the whole template has that size
+				d.P = (size - 10 - d.H - d.S)
+				if d.P < 0 {
+					d.P = 0
+				}
+			}
+			return c20LongTplCase{T: d, I: c20Q(rapid.SampledFrom(idents).Draw(rt, "i"))}
+		},
+		func(c c20LongTplCase) kit.Verdict {
+			d := c.T
+			id := c20U(c.I)
+			if d.P < 0 || d.H < 0 || d.S < 0 || d.P+d.S > c20LongMax || d.H*(len(c20Words(id, true))+1) > c20LongMax {
+				return kit.Verdict{Excluded: true}
+			}
+			f := c20U(d.F)
+			if len(c20Occ(f+f, "go"))+len(c20Occ(f+f, "designer")) > 0 || len(d.Go) != 2 || len(d.De) != 8 {
+				return kit.Verdict{Excluded: true}
+			}
+			tpl := c20Fill(f, d.P) + d.Go + c20Fill(f, d.H) + d.De + c20Fill(f, d.S)
+			v := c20Judge(tpl, id, nil)
+			for _, part := range []struct {
+				n string
+				l int
+			}{{"prefix", d.P}, {"through", d.H}, {"suffix", d.S}} {
+				switch {
+				case part.l >= 65536:
+					v.Classes = append(v.Classes, part.n+">=64Ki")
+				case part.l >= 4096:
+					v.Classes = append(v.Classes, part.n+":4Ki..64Ki-1")
+				case part.l >= 127:
+					v.Classes = append(v.Classes, part.n+":127..4Ki-1")
+				}
+			}
 			v.Fail = c20Trunc(v.Fail)
 			return v
 		})
